@@ -48,6 +48,9 @@ def run_shard(pid, tier, seed, shard, nshards, partial_path, replay=None):
         run.rule = getattr(mod, "RULE", "")
         run.assumptions = list(getattr(mod, "ASSUMPTIONS", []))
         guard_executors(mod, core)
+        lh = core.LineHits(getattr(mod, "ANCHORS", []))
+        lh.start()
+        run._lh = lh
         if replay is not None:
             run.replay_mode = True
             rec = json.loads(Path(replay).read_text())
@@ -60,6 +63,9 @@ def run_shard(pid, tier, seed, shard, nshards, partial_path, replay=None):
     except Exception:
         run.inconclusive.append("harness error in shard %d: %s" %
                                 (shard, traceback.format_exc()[-1500:]))
+    if getattr(run, "_lh", None) is not None:
+        run._lh.stop()
+        run.line_hits = run._lh.result()
     Path(partial_path).write_text(json.dumps(run.partial()))
 
 
